@@ -95,6 +95,7 @@ def shards(tier):
                     out.append(dict(part="B", map=i, n_tries=nt, use_count=uc,
                                     initial=init))
     out.append(dict(part="big"))
+    out.append(dict(part="hist"))
     return out
 
 
@@ -156,9 +157,16 @@ def run_one(cfg, ch, acc):
     with Session(sim, n_tries=2) as s:
         acc.evaluations += 1
         try:
-            s.mc.load_application(app_map, app_id=APP, wait=cfg["wait"],
-                                  n_tries=cfg["n_tries"],
-                                  use_count=cfg["use_count"])
+            if cfg.get("via") == "ctx":
+                # app_id and wait are contextual arguments: a with-block
+                # may supply them
+                with s.mc(app_id=APP, wait=cfg["wait"]):
+                    s.mc.load_application(app_map, n_tries=cfg["n_tries"],
+                                          use_count=cfg["use_count"])
+            else:
+                s.mc.load_application(app_map, app_id=APP, wait=cfg["wait"],
+                                      n_tries=cfg["n_tries"],
+                                      use_count=cfg["use_count"])
             outcome = "return"
         except SpiNNakerLoadingError as e:
             outcome = "loading_error"
@@ -300,11 +308,12 @@ def part_A(params, tier, acc):
         for size in (4, buf - 4, buf, buf + 4, 2 * buf, 2 * buf + 4):
             for wait in (False, True):
                 for uc in (True, False):
-                    cfg = dict(map=params["map"], buffer=buf, size=size,
-                               wait=wait, use_count=uc, n_tries=2,
-                               initial="clean")
-                    acc.nontrivial += 1
-                    run_one(cfg, Chooser(), acc)
+                    for via in ("kw", "ctx"):
+                        cfg = dict(map=params["map"], buffer=buf, size=size,
+                                   wait=wait, use_count=uc, n_tries=2,
+                                   initial="clean", via=via)
+                        acc.nontrivial += 1
+                        run_one(cfg, Chooser(), acc)
     acc.sample(dict(part="A", map=describe_map(params["map"])))
 
 
@@ -339,7 +348,77 @@ def run_one_big(cfg, ch, acc):
     run_one(cfg2, ch, acc)
 
 
+HIST_STEPS = [
+    # (file contents generation, size, targets, wait)
+    [(1, 20, {(0, 0): [1]}), (2, 20, {(1, 0): [2]})],
+    [(1, 20, {(0, 0): [1]}), (2, 36, {(0, 0): [3], (1, 1): [1]})],
+    [(1, 36, {(0, 0): [1, 2]}), (2, 12, {(0, 1): [1]})],
+    [(1, 20, {(0, 0): [1]}), (1, 20, {(1, 0): [1]})],
+    [(1, 20, {(0, 0): [1]}), (2, 20, {(0, 0): [1]}), (3, 24, {(0, 0): [1]})],
+]
+
+
+def hist_execution(case, acc):
+    """Several load_application calls on ONE controller, the binary file
+    being rewritten (same path) between them: every load sends what the file
+    holds at the time."""
+    from rig.machine_control.machine_controller import SpiNNakerLoadingError
+    steps = case["steps"]
+    sim = SimMachine(repo(), 2, 2, buffer_size=16)
+    sim.full_sync = False
+    path = os.path.join(tmpdir(), "hist_%d.aplx" % os.getpid())
+    acc.evaluations += 1
+    acc.nontrivial += 1
+    with Session(sim, n_tries=2) as s:
+        for i, (gen, size, targets) in enumerate(steps):
+            data = bytes((j * 7 + gen * 31) & 0xff for j in range(size))
+            with open(path, "wb") as f:
+                f.write(data)
+            tg = {tuple(c): set(ps) for c, ps in targets.items()} \
+                if isinstance(targets, dict) else \
+                {(x, y): set(ps) for x, y, ps in targets}
+            # cores loaded by an earlier step are stopped (as "rig-power" or
+            # a stop signal would) so that they can be loaded again
+            for xy, ps in tg.items():
+                for p in ps:
+                    sim.chips[xy].core_state[p] = 0
+                    sim.chips[xy].core_app[p] = 0
+            try:
+                s.mc.load_application({path: tg}, app_id=APP,
+                                      wait=case["wait"])
+            except SpiNNakerLoadingError as e:
+                acc.violation(dict(kind="history_loading_error"),
+                              case, "load %d of the history failed on a "
+                              "fault-free machine: %s" % (i, e))
+                return
+            bad = [(xy, p) for xy, ps in tg.items() for p in ps
+                   if not loaded(sim, (xy, p), data,
+                                 ST_WAIT if case["wait"] else ST_RUN)]
+            if bad:
+                acc.violation(dict(kind="history_wrong_image"), case,
+                              "load %d of the history: cores %r do not hold "
+                              "the %d bytes the file held when "
+                              "load_application was called (they hold %r)"
+                              % (i, bad, size,
+                                 [sim.chips[xy].core_image[p][:8]
+                                  for xy, p in bad]))
+                return
+    acc.outcome("history_ok")
+
+
+def part_hist(params, tier, acc):
+    for steps in HIST_STEPS:
+        for wait in (False, True):
+            st = [[g, sz, [[x, y, ps] for (x, y), ps in sorted(t.items())]]
+                  for g, sz, t in steps]
+            hist_execution(dict(hist=True, steps=st, wait=wait), acc)
+    acc.sample(dict(part="hist", histories=len(HIST_STEPS) * 2))
+
+
 def run_shard(params, tier, acc):
+    if params["part"] == "hist":
+        part_hist(params, tier, acc)
+        return
     if params["part"] == "A":
         part_A(params, tier, acc)
     elif params["part"] == "B":
@@ -349,6 +428,9 @@ def run_shard(params, tier, acc):
 
 
 def replay(case, acc):
+    if case.get("hist"):
+        hist_execution(case, acc)
+        return
     cfg = case["cfg"]
     ch = Chooser(case["choices"])
     if "custom_map" in cfg:
